@@ -1,0 +1,32 @@
+//go:build verif
+
+// Contracts read by /verif/govc (comment-only; never compiled into the node).
+
+package service_account
+
+// a_t = max(0, B_S + B_I*a_i + B_L*a_o - a_f) computed over the integers (GP 9.8), result in N_{2^64} when it fits
+//@ func CalcThresholdBalance
+//@   props C09
+//@   let total = u128(types.BasicMinBalance) + u128(types.AdditionalMinBalancePerItem)*u128(aI) + u128(types.AdditionalMinBalancePerOctet)*u128(aO)
+//@   ensures floor: total <= u128(aF) ==> result == 0
+//@   ensures exact: total < 18446744073709551616 && total > u128(aF) ==> u128(result) == total - u128(aF)
+//@   ensures exact_wide: total >= 18446744073709551616 && total > u128(aF) && total - u128(aF) < 18446744073709551616 ==> u128(result) == total - u128(aF)
+
+//@ func CalcLookupItemfootprint
+//@   props C09
+//@   ensures items: result0 == 2
+//@   ensures octets: u128(result1) == 81 + u128(lookupItem.Length)
+
+//@ func CalcStorageItemfootprint
+//@   props C09
+//@   ensures items: result0 == 1
+//@   ensures octets: u128(result1) == 34 + u128(len(storageRawKey)) + u128(len(storageData))
+
+// I(l, t): availability of a preimage at time t (GP 9.x), false for |l| > 3
+//@ func isValidTime
+//@   props C31
+//@   ensures empty: len(l) == 0 ==> !result
+//@   ensures one: len(l) == 1 ==> result == (l[0] <= t)
+//@   ensures two: len(l) == 2 ==> result == (l[0] <= t && t < l[1])
+//@   ensures three: len(l) == 3 ==> result == ((l[0] <= t && t < l[1]) || l[2] <= t)
+//@   ensures more: len(l) > 3 ==> !result
